@@ -31,6 +31,14 @@ Three Hypothesis parts over ``tornado.httputil.parse_body_arguments`` /
   For both: the call returns (then the dictionaries have the documented shape) or raises
   ``HTTPInputError`` — any other exception is a violation.
 
+Empty parts (a delimiter line directly followed by the next one; option ``empty_parts``) are malformed and
+the documentation of ``max_parts`` ("The maximum number of parts accepted ... Each <input> element ...
+corresponds to at least one part") does not say whether they count.  So for a body with m real and e
+empty parts every limit in ``m .. m+e-1`` is EITHER (accept or HTTPInputError); asserted under every
+reading: a limit below m is refused, and whenever the body is accepted the result is exactly the m real
+parts.  (The tree counts every piece between delimiters; a variant that does not count empty pieces is
+therefore *not* flagged — by design, see Sensitivity.)
+
 EITHER classes (statement silent; only "returns or HTTPInputError" is asserted): empty field name,
 empty filename, non-empty preamble / epilogue other than one CRLF, and exactly two structural classes
 of backslash-escaped quoted-string values that the cgi-derived splitter does not recover: a value
@@ -65,6 +73,11 @@ Sensitivity (quick tier, seed 1, one mutant at a time on a scratch copy):
   * header terminator searched only within the limit (``part.find(b"\\r\\n\\r\\n", 0, max_part_header_size)``,
     "not found" = too large): limits ``h..h+3`` refuse a body that is within the limit ... caught
     (C30.limit_header_within_rejected via config=, C30.global_limit_within_rejected via the global channel)
+
+  * NOT flagged, by design: empty pieces filtered before the part count (``parts = [p for p in parts if p]``;
+    empty parts no longer count against ``max_parts``) — the docs are silent on whether an empty part is
+    a "part", so both countings are inside the EITHER band ``m..m+e-1``; the sound sub-clauses (limit < m
+    refused, accepted result exact) hold for both.
 
 Findings of this check (write-ups in findings_inbox/; both since repaired in /repo and marked fixed,
 their replays under replays/C30/ now hold as regression replays):
@@ -191,6 +204,9 @@ _form_opts = st.fixed_dictionaries({
     "ct_sep": st.sampled_from(["; ", ";", " ; "]),
     "ct_charset": st.sampled_from(["", "", "before", "after"]),
     "tail": st.sampled_from(["\r\n"] * 6 + ["", "", "epilogue", "preamble"]),
+    # positions of bare delimiter lines (a delimiter directly followed by the next one = an empty part)
+    "empty_parts": st.tuples(st.sampled_from([1] * 8 + [0]), st.lists(st.integers(0, 6), min_size=1, max_size=3)).map(
+        lambda t: t[1] if t[0] == 0 else []),
     "prepop": st.booleans(),
     "plus": st.booleans(),
     "hex_lower": st.booleans(),
@@ -359,14 +375,17 @@ def encode_multipart(items, opt):
     seed = opt["bseed"].rstrip(" ") or "b"
     epilogue = b"\r\nepilogue -- text\r\n" if opt["tail"] == "epilogue" else (b"" if opt["tail"] in ("", "preamble") else b"\r\n")
     preamble = b"This is a multipart message.\r\n" if opt["tail"] == "preamble" else b""
+    empties = [p % (len(items) + 1) for p in opt.get("empty_parts", [])]
     for ext in range(0, 50):
         boundary = seed + "Z" * ext
         if len(boundary) > 70:
             return None
         b = boundary.encode("ascii")
         chunks = [preamble]
-        for it, h in zip(items, headers):
+        for idx, (it, h) in enumerate(zip(items, headers)):
+            chunks += [b"--", b, b"\r\n"] * empties.count(idx)  # bare delimiter lines = empty parts
             chunks += [b"--", b, b"\r\n", h, b"\r\n\r\n", it[-2], b"\r\n"]
+        chunks += [b"--", b, b"\r\n"] * empties.count(len(items))
         chunks += [b"--", b, b"--", epilogue]
         body = b"".join(chunks)
         # the boundary must occur nowhere in the content: exactly one occurrence per delimiter
@@ -377,7 +396,7 @@ def encode_multipart(items, opt):
                 break
             n += 1
             start = i + 1
-        if n == len(items) + 1:
+        if n == len(items) + 1 + len(empties):
             break
     else:
         return None
@@ -500,6 +519,8 @@ def classify(case):
                 labels.add("control_char_param")
     if enc == "multipart" and case["opt"]["tail"] in ("epilogue", "preamble"):
         either.add("either_" + case["opt"]["tail"])
+    if enc == "multipart" and case["opt"].get("empty_parts"):
+        either.add("either_empty_parts")
     return either, finding, labels
 
 
@@ -587,6 +608,28 @@ def run_form(ctx, case):
     if len({it[1] for it in case["items"]}) < len(case["items"]):
         labels.add("repeated_name")
 
+    if either == {"either_empty_parts"}:
+        # Empty parts (bare delimiter lines) are malformed and the docs do not say whether they count
+        # against max_parts: accepting or refusing such a body is EITHER at every limit from the number
+        # of real parts m up to m + e.  What holds under every reading: if the body is accepted the
+        # result is exactly the m real parts (nothing mis-framed, nothing invented), and a limit below
+        # m is refused.
+        m, e = len(case["items"]), len(opt["empty_parts"])
+        want_a, want_f = expected(case)
+        for max_parts in sorted({m - 1, m, m + e - 1, m + e, 100}):
+            if max_parts < 0:
+                continue
+            cfg = ParseBodyConfig(multipart=ParseMultipartConfig(max_parts=max_parts, max_part_header_size=1 << 20))
+            ok, a, f = call_total(ctx, "C30.empty_parts", ctype, body, headers, cfg)
+            d = {"ctype": ctype, "body": body, "real_parts": m, "empty_parts": e, "max_parts": max_parts}
+            if ok and max_parts < m:
+                ctx.fail("C30.limit_parts_over_accepted", d, sig="C30.limit_parts_over_accepted.with_empty_parts")
+            if ok and (a != want_a or not compare_files(files_view(f), want_f)):
+                ctx.fail("C30.empty_parts_misparsed", dict(d, arguments=a, files=files_view(f), want_arguments=want_a))
+            if m <= max_parts < m + e:
+                labels.add("empty_parts_band_accepted" if ok else "empty_parts_band_rejected")
+        labels |= either
+        return ctx.note(case, labels, False)
     if either:
         ok, a, f = call_total(ctx, "C30.either", ctype, body, headers)
         labels |= either
